@@ -1138,6 +1138,8 @@ def reshape(ctx, a, shape, origin=None, order='C'):
         raise AnalysisError(f"reshape order {order!r} is not modelled")
     if not (shape_prod(shape) - a.size()).is_zero():
         raise AbstractRaise('ValueError', f"cannot reshape array of size {a.size()} into shape {tuple(map(str, shape))}")
+    if len(shape) == 1 and a.ndim > 1 and not (a.label and a.label[0] == 'flatvec'):
+        return ravel_arr(ctx, a)               # nd -> (size,): the C-order ravel
     if a.ndim == 1 and a.label and a.label[0] == 'flatvec':
         # opaque flat vector indexed by C-order cell number -> nd array of the same atoms
         return a.label[1](shape)
